@@ -203,4 +203,7 @@ def run(ctx):
         o["rule"] = "C17.P3"
         ctx.obligations.append(o)
     check_bytequeue_wait(ctx, "C17.W1")
+    from .c04 import check_byte_queue
+
+    check_byte_queue(ctx, "C17.W1")
     check_dispatcher(ctx, "C17.W1", wakeups=True, consumers=True, reconnect=False)
